@@ -50,6 +50,8 @@ TIER_CAPS = {
     # per-harness wall-clock cap (s), address-space cap (KiB), parallel jobs
     "quick": dict(timeout=900, mem_kib=14 * 1024 * 1024, jobs=14),
     "thorough": dict(timeout=3600, mem_kib=24 * 1024 * 1024, jobs=10),
+    # counterexample extraction: kani-driver loads CBMC's whole JSON trace into memory
+    "playback": dict(timeout=3600, mem_kib=44 * 1024 * 1024, jobs=4),
 }
 
 ROW = re.compile(
@@ -385,7 +387,7 @@ def run_harness(h, tier, want_playback=False):
 
 
 def run_harness_in(h, tier, want_playback, slot):
-    caps = TIER_CAPS[tier]
+    caps = TIER_CAPS["playback" if want_playback else tier]
     os.makedirs(WORK, exist_ok=True)
     logf = os.path.join(WORK, "%s%s.log" % (h["name"], ".playback" if want_playback else ""))
     t0 = time.time()
@@ -424,12 +426,15 @@ def run_harness_in(h, tier, want_playback, slot):
         r["outcome"] = "oom" if p["oom"] or rc in (-9, 137, 134) else "error"
         r["detail"] = "no verdict line (rc=%s)" % rc
     elif p["verdict"] == "SUCCESSFUL":
+        # vacuity guard: no reachable witness may be unsatisfiable, and at least one of the
+        # mandatory ("!") witnesses of the harness must be SATISFIED (witnesses sitting in
+        # branches that are dead for this instantiation come back UNREACHABLE and are ignored)
         bad_cov = [c for c in p["covers"] if c["status"] == "UNSATISFIABLE"]
         must = [c for c in p["covers"] if c["desc"].startswith("!")]
-        missing = [c for c in must if c["status"] != "SATISFIED"]
-        if bad_cov or missing:
+        sat_must = [c for c in must if c["status"] == "SATISFIED"]
+        if bad_cov or (p["covers"] and not sat_must and h["mode"] != "oracle"):
             r["outcome"] = "vacuous"
-            r["detail"] = "reachability witnesses not satisfied: %s" % sorted(set(c["desc"] for c in bad_cov + missing))
+            r["detail"] = "reachability witnesses not satisfied: %s" % (sorted(set(c["desc"] for c in bad_cov)) or "no mandatory witness satisfied")
         else:
             r["outcome"] = "pass"
     else:
@@ -500,7 +505,7 @@ def finding_key(prop, hname, role):
 
 
 def run_pool(hs, tier, playback=False):
-    jobs = TIER_CAPS[tier]["jobs"]
+    jobs = min(TIER_CAPS["playback" if playback else tier]["jobs"], SLOTS.qsize() or 1)
     res = {}
     with concurrent.futures.ThreadPoolExecutor(max_workers=jobs) as ex:
         futs = {ex.submit(run_harness, h, tier, playback): h for h in hs}
@@ -543,6 +548,18 @@ def check(prop, tier, only=None):
         for p in problems:
             log("SOURCE-SCAN-ERROR: " + p)
         return 2
+    ok, secs, logf = build_native()
+    log("  built native replay binaries in %.0fs: %s" % (secs, "ok" if ok else "FAILED"))
+    if not ok:
+        log("BUILD-ERROR: see " + logf)
+        log(open(logf, errors="replace").read()[-3000:])
+        return 2
+    st = subprocess.run([os.path.join(NATIVE_TARGET, "release", "replay"), "--selftest"], capture_output=True, text=True)
+    log("  " + (st.stdout.strip().splitlines() or ["selftest: no output"])[-1])
+    if st.returncode != 0:
+        log(st.stdout[-3000:])
+        log("ORACLE-SELFTEST-FAILED")
+        return 2
     known = load_known()
     listed = {f["key"]: f for f in known.get("findings", []) if f.get("property") == prop}
     excl = set()
@@ -573,7 +590,7 @@ def check(prop, tier, only=None):
     known_hits = []
     inconclusive = []
     rounds = 0
-    native_ready = False
+    native_ready = True
     pending = [h for h in hs if results[h["name"]]["outcome"] == "fail"]
     while pending and rounds < 6:
         rounds += 1
